@@ -107,7 +107,21 @@ var verifAttrNames = []string{"title", "class", "style", "href", "onclick", "hx-
 func VerifC16HasChanged() {
 	var a, b parser.TemplateFile
 	expr := parser.Expression{Value: "s"}
-	switch symChoose(4) {
+	switch symChoose(5) {
+	case 4: // a static element moves across a block (if / for): same literal count, same expressions
+		cond := parser.Expression{Value: "show"}
+		inner := []parser.Node{parser.Element{Name: "p", Children: []parser.Node{parser.Text{Value: "details"}}}}
+		var blk parser.Node = parser.IfExpression{Expression: cond, Then: inner}
+		if symBool("loop") {
+			blk = parser.ForExpression{Expression: parser.Expression{Value: "_, x := range xs"}, Children: inner}
+		}
+		stat := parser.Element{Name: "div", Children: []parser.Node{parser.Text{Value: symString("t1", symParam("T"))}}}
+		a = verifFile(blk, stat)
+		b = verifFile(stat, blk)
+		if symBool("intoBlock") { // ... or into the block
+			b = verifFile(parser.IfExpression{Expression: cond, Then: append([]parser.Node{stat}, inner...)})
+			a = verifFile(stat, parser.IfExpression{Expression: cond, Then: inner})
+		}
 	case 0: // attribute rename on a symbolic element
 		el := []string{"div", "a", "form"}[symChoose(3)]
 		n1, n2 := verifAttrNames[symChoose(len(verifAttrNames))], verifAttrNames[symChoose(len(verifAttrNames))]
